@@ -156,7 +156,7 @@ var c06Hooked = true
 
 func init() {
 	registerCases[c06Case]("C06", "exploration",
-		"10 pictures (sizes 16x16..100x65 incl. non-multiples of 16, 1-macroblock-wide, >= 4 macroblock rows; noise, gradient, many-colour, few-colour, regions, with alpha) x lossy options with at most 2 (thorough 3) fields away from the defaults (16 fields: Quality, Method, Preset, Segments, Partitions, Pass, filter strength/sharpness/type, SNS, Preprocessing, QMin/QMax, TargetSize, TargetPSNR, sharp YUV, Exact) x worker count {1: serial paths, 3: parallel paths under the deterministic default schedule}; plus every ordered pair of Methods 0..6 on a recycled (pooled) encoder for 3 textured pictures, plus two large pictures (more than 32768 tokens) x Partitions 0..3 x Method {4,0,6} x Quality {75,100}, plus two pictures of more than 510 macroblocks of which all but one look alike (skewed segment populations) x 3 Methods x 2 Segments settings; the encoder's reconstruction planes, captured by an overlay wrapper around (*VP8Encoder).EncodeFrame, must equal the independent decoder's planes before the loop filter, and webp.Decode's planes when the frame's filter level is 0",
+		"10 pictures (sizes 16x16..100x65 incl. non-multiples of 16, 1-macroblock-wide, >= 4 macroblock rows; noise, gradient, many-colour, few-colour, regions, with alpha) x lossy options with at most 2 (thorough 3) fields away from the defaults (16 fields: Quality, Method, Preset, Segments, Partitions, Pass, filter strength/sharpness/type, SNS, Preprocessing, QMin/QMax, TargetSize, TargetPSNR, sharp YUV, Exact) x worker count {1: serial paths, 3: parallel paths under the deterministic default schedule}; plus every ordered pair of Methods 0..6 on a recycled (pooled) encoder for 3 textured pictures, plus two large pictures (more than 32768 tokens) x Partitions 0..3 x Method {4,0,6} x Quality {75,100}, plus two pictures of more than 510 macroblocks of which all but one look alike (skewed segment populations) x 3 Methods x 2 Segments settings, plus a skip-probability sweep (4 macroblock counts x 1,2,3,5 skippable macroblocks inside noise x 3 Methods x 2 partition counts); the encoder's reconstruction planes, captured by an overlay wrapper around (*VP8Encoder).EncodeFrame, must equal the independent decoder's planes before the loop filter, and webp.Decode's planes when the frame's filter level is 0",
 		[]string{"reconstruction planes are read from VP8Encoder.yPlane/uPlane/vPlane right after EncodeFrame returns (overlay accessor; skipped and reported if the fields are renamed)", "pools never reuse", "independent decoder: vendored x/image vp8 with the loop filter switched off"},
 		func(e *fw.Env) int {
 			if e.Quick() {
@@ -171,7 +171,23 @@ func init() {
 			}
 			return func(c *choice.Ctx) caseI {
 				cs := &c06Case{Seed: e.Seed, Dev: map[string]int{}, PrevM: -1}
-				part := c.PickFree(4, "part")
+				part := c.PickFree(5, "part")
+				if part == 4 {
+					// skip-probability sweep: N macroblocks of which K (flat blocks inside noise) can be
+					// skipped; (N-K)*255/N takes the values 240..253 - the range in which writers switch the
+					// skip flag on and off - and the token partitions must agree with whatever was decided
+					sz := [][2]int{{128, 128}, {160, 160}, {112, 80}, {256, 208}}[c.PickFree(4, "size")]
+					k := []int{1, 2, 3, 5}[c.PickFree(4, "flat")]
+					cs.Img = c02Img{sz[0], sz[1], fmt.Sprintf("noiseflat%d", k), "opaque"}
+					cs.Workers = []int{1, 3}[c.PickFree(2, "workers")]
+					if v := c.PickFree(3, "Method"); v > 0 {
+						cs.Dev["Method"] = []int{1, 6}[v-1] // Method 0 / 6
+					}
+					if v := c.PickFree(2, "Partitions"); v > 0 {
+						cs.Dev["Partitions"] = 2
+					}
+					return cs
+				}
 				if part == 3 {
 					// more than 510 macroblocks of which all but one look alike: segment populations so
 					// skewed that the coded segment-tree probabilities saturate
